@@ -161,6 +161,12 @@ def handlePos (j : Json) : Except String Verdict := do
   let okShape := impl.isNull || io.isSome
   let tags := (if sp.isSome then ["start_pos"] else []) ++ (if found then ["found"] else ["absent"]) ++
     (if isRef then ["posref"] else [])
+  if fStrD j "via" "" == "get" then
+    -- getPayload(c, start_pos=sp): the value stored at c, else the default, for every legal shortcut
+    let v : Int := match lookup l c with | some x => (show Int from x) | none => 0
+    let mv : Int := match l[idx]? with | some e => if e.1 = c then (show Int from e.2) else 0 | none => 0
+    let ok (x : Int) : Bool := match impl.getInt? with | .ok y => y == x | _ => false
+    return { agree := ok mv, spec := ok v, model := jInt mv, tags := tags ++ ["read-with-start_pos"] }
   if isRef then
     -- getPositionRef returns the search position and leaves the element stored there
     let after ← fTree j "after" 1
